@@ -13,8 +13,8 @@ RULE = ("one case = (method, direction, dense flag, event mix incl. simultaneous
         "direction; non-trivial = >=1 reported event; distinct by (method,direction,dense,event mix,seed)")
 ASSUMPTIONS = ["true roots with |dg/dt| below 5% of the function's scale (tangential) and pairs of true roots closer than the location tolerance are excluded",
                "root location tolerance in t: K*(dy*|s||grad h|/|dg/dt| + max(4eps(1+|t|), ulp(t))) with dy = node error + h^4 max|y''''|/384, K=10"]
-FLOORS = {"quick": {"events_checked": 150, "events_backward": 50, "events_nodense": 50, "steps_with_two_events": 3, "boundary_root_events": 6, "events_on_small_steps": 12, "events_on_tiny_steps": 4, "boundary_root_events_sharing_a_step": 30},
-          "thorough": {"events_checked": 1500, "events_backward": 500, "events_nodense": 500, "steps_with_two_events": 30, "boundary_root_events": 60, "events_on_small_steps": 150, "events_on_tiny_steps": 20, "boundary_root_events_sharing_a_step": 150}}
+FLOORS = {"quick": {"events_checked": 150, "events_backward": 50, "events_nodense": 50, "steps_with_two_events": 3, "boundary_root_events": 6, "events_on_small_steps": 12, "events_on_tiny_steps": 4, "boundary_root_events_sharing_a_step": 30, "multileg_legs": 40, "multileg_events": 40},
+          "thorough": {"events_checked": 1500, "events_backward": 500, "events_nodense": 500, "steps_with_two_events": 30, "boundary_root_events": 60, "events_on_small_steps": 150, "events_on_tiny_steps": 20, "boundary_root_events_sharing_a_step": 150, "multileg_legs": 400, "multileg_events": 400}}
 QUICK_METHODS = ["RK45CKSolver", "DOPRI45", "RK4Solver", "EulerSolver", "RK8713MSolver", "ABAs5o6HSolver", "SymplecticEulerSolver",
                  "BackwardEuler", "RadauIIA5", "GaussLegendre4", "MidpointSolver", "RK108Solver"]
 CASE_TIMEOUT = 900
@@ -64,10 +64,118 @@ def gen_cases(tier, seed):
                                   nsteps=32.0, nev=3, pseed=int(rng.integers(1 << 30)), cost=3))
                 cases.append(dict(kind="boundary", shared=True, method=name, direction=d, dense=dense, t0=0.0 if d > 0 else 2.0, tf=2.0 if d > 0 else 0.0,
                                   nsteps=32.0, nev=6, pseed=int(rng.integers(1 << 30)), cost=4))
+    # the span is covered by 2-3 calls that monitor the SAME event function objects; between the calls their `direction` attribute is changed
+    # (and the list is passed again, as the same or as a new list object): every call must honour the attributes in force when it is made
+    for name in (["RK4Solver", "RK45CKSolver", "RK8713MSolver", "ABAs5o6HSolver", "RadauIIA5"] if tier == "quick" else [n for n in names if M[n]["order"] >= 3]):
+        for d in (1, -1):
+            for r in range(2 if tier == "quick" else 4):
+                L = float(rng.uniform(5.0, 8.0))
+                t0 = float(rng.uniform(-4, 4))
+                cases.append(dict(kind="multileg", method=name, direction=d, dense=bool(rng.random() < 0.5), t0=t0, tf=t0 + d * L, nsteps=float(rng.uniform(60, 110)), nev=3,
+                                  nlegs=int(rng.integers(2, 4)), same_list=bool(rng.random() < 0.5), pseed=int(rng.integers(1 << 30)), cost=(4 if M[name]["explicit"] else 30)))
     return cases
 
 
+def _multileg(spec):
+    M = util.methods()
+    info = M[spec["method"]]
+    d = spec["direction"]
+    t0, tf = spec["t0"], spec["tf"]
+    dim = 2
+    prob = Manufactured(dim, spec["pseed"], direction=d, freq=(1.0, 3.0))
+    rng = rng_for(703, spec["pseed"])
+    eps = 2.3e-16
+    L = abs(tf - t0)
+    h = L / spec["nsteps"]
+    evspecs = [random_event_spec(rng, prob, t0, tf, dim, terminal=False, kinds=["component", "linear", "time"], scale_decades=(-3, 3)) for _ in range(spec["nev"])]
+    events = [Ev(s_, dim) for s_ in evspecs]
+    rec = util.Rec(sig="multileg|%s|%d|%s|%d|%s|%d" % (spec["method"], d, spec["dense"], spec["nlegs"], spec["same_list"], spec["pseed"] % 11))
+    feats = {"method": spec["method"], "family": info["family"], "direction": d, "dense": bool(spec["dense"]), "case_kind": "multileg", "same_list_object": bool(spec["same_list"])}
+    all_roots = [true_roots(ev, prob, t0, tf)[0] for ev in events]
+    flat = sorted(r[0] for rs in all_roots for r in rs)
+    # leg boundaries: away from every true root by more than 4 steps
+    cuts = []
+    for k in range(1, spec["nlegs"]):
+        for _ in range(40):
+            c = t0 + (k + float(rng.uniform(-0.25, 0.25))) / spec["nlegs"] * (tf - t0)
+            if all(abs(c - r) > 4 * h for r in flat):
+                cuts.append(c)
+                break
+    targets = cuts + [tf]
+    system = sysrun.make_system(lambda t, y, **kw: prob.rhs(t, y), prob.ystar(t0).astype(np.float64), t0, tf, h, info["cls"], dense=spec["dense"], rtol=1e-8, atol=1e-10)
+    evlist = list(events)
+    ta = t0
+    for li, tb in enumerate(targets):
+        if li > 0:
+            for ev in events:      # attributes are changed on the same function objects between the calls
+                ev.direction = int(rng.choice([-1, 0, 1]))
+            if not spec["same_list"]:
+                evlist = list(events)
+        n_ev0 = len(system.events)
+        seg = sysrun.call_integrate(system, t=tb, events=evlist, max_steps=20000)
+        fl = dict(feats, leg=li)
+        if seg["raised"]:
+            rec.violate("event_run_raised", type(getattr(seg["exc"], "__cause__", None) or seg["exc"]).__name__, fl, err=repr(getattr(seg["exc"], "__cause__", None) or seg["exc"])[:300])
+            return rec.out()
+        new = list(system.events)[n_ev0:]
+        rec.bump("multileg_legs")
+        t = np.asarray(system.t)
+        y = np.asarray(system.y)
+        node = max(float(np.max(np.abs(y[k].astype(np.longdouble) - prob.ystar(float(t[k]))))) for k in range(len(t)))
+        hmax = float(np.max(np.abs(np.diff(t))))
+        dy = node + hmax ** 4 * prob.d4ystar_max() / 384.0 + 64 * eps * (1 + float(np.max(np.abs(y))))
+        lo, hi = sorted([ta, tb])
+        for j, ev in enumerate(events):
+            mine = sorted(float(e.t) for e in new if e.event is ev)
+            grad_h = abs(ev.s) * (float(np.sum(np.abs(ev.w))) if ev.kind == "linear" else 1.0)
+            want = []
+            for (tr, gd) in all_roots[j]:
+                if not (lo < tr < hi):
+                    continue
+                going_up = (gd * d) > 0
+                if ev.direction != 0 and (ev.direction > 0) != going_up:
+                    continue
+                want.append((tr, gd))
+            used = set()
+            for te in mine:
+                rec.bump("events_checked")
+                rec.bump("multileg_events")
+                if d < 0:
+                    rec.bump("events_backward")
+                if not spec["dense"]:
+                    rec.bump("events_nodense")
+                if not (lo - 1e-12 <= te <= hi + 1e-12):
+                    rec.violate("event_outside_step", "event_time_outside_the_call_in_which_it_was_found", fl, t_e=te, call=[ta, tb])
+                    continue
+                cands = [(abs(tr - te), i, tr, gd) for i, (tr, gd) in enumerate(all_roots[j])]
+                if not cands:
+                    rec.violate("event_no_true_root", "reported_event_but_g_has_no_root_along_exact_trajectory", dict(fl, ev_kind=ev.kind), t_e=te, event=ev.spec)
+                    continue
+                dist, i, tr, gd = min(cands)
+                tolx = max(4 * eps * (1 + abs(te)), 4 * float(np.spacing(abs(te))))
+                loc_tol = K * ((0.0 if ev.kind == "time" else dy) * grad_h / max(abs(gd), 1e-300) + tolx)
+                gaps_ = [abs(a_[0] - b_[0]) for a_, b_ in zip(all_roots[j][:-1], all_roots[j][1:])]
+                if loc_tol > 0.2 * min(gaps_ + [0.1 * L]):
+                    rec.bump("skipped_run_too_inaccurate_for_root_matching")      # the exact trajectory cannot identify individual crossings of this run
+                    continue
+                if dist > loc_tol:
+                    rec.violate("event_location", "event_time_far_from_true_root", dict(fl, ev_kind=ev.kind), t_e=te, true_root=tr, tol=loc_tol, event=ev.spec)
+                    continue
+                if ev.direction != 0 and (ev.direction > 0) != ((gd * d) > 0):
+                    rec.violate("event_direction", "reported_crossing_direction_incompatible_with_requested_direction", dict(fl, ev_kind=ev.kind), t_e=te, dgdt=gd,
+                                requested=ev.direction)
+                if i in used:
+                    rec.violate("event_duplicate", "one_crossing_reported_twice", dict(fl, ev_kind=ev.kind, case="multileg"), t_e=te, true_root=tr)
+                used.add(i)
+        ta = tb
+    rec.nontrivial = rec.counters.get("multileg_events", 0) > 0
+    rec.sample = {"spec": {k: spec[k] for k in ("kind", "method", "direction", "dense", "t0", "tf", "nlegs", "same_list")}, "events": evspecs[:2], "reported": len(system.events)}
+    return rec.out()
+
+
 def run_case(spec):
+    if spec["kind"] == "multileg":
+        return _multileg(spec)
     M = util.methods()
     info = M[spec["method"]]
     d = spec["direction"]
